@@ -197,7 +197,8 @@ MatMulRange(L, R, lo, hi) == Build(<<L.shape[1], R.shape[2]>>, LAMBDA p : FSum(h
 GradedA(c, L, R) == IF c.grade = 0 \/ L.shape[2] < 2 THEN MatMul(L, R) ELSE MatMulRange(L, R, 1, L.shape[2] - 1)
 GradedB(c, L, R) == IF c.grade = 0 \/ L.shape[2] < 2 THEN Build(<<L.shape[1], R.shape[2]>>, LAMBDA p : 0)
                     ELSE MatMulRange(L, R, L.shape[2], L.shape[2])
-SeqSet == {<<"N", "M", "N">>, <<"N", "A", "N">>, <<"N", "N">>, <<"F", "N">>, <<"N", "F", "N">>,
+SeqSet == {<<"X", "N">>, <<"N", "X", "N">>, <<"N", "M", "X", "N">>,       \* "X": a failing call (operand of the wrong size) on the same object
+           <<"N", "M", "N">>, <<"N", "A", "N">>, <<"N", "N">>, <<"F", "N">>, <<"N", "F", "N">>,
            <<"M", "N", "A", "N">>, <<"N", "M", "M", "N">>, <<"A", "N", "F", "M", "N">>}
 TShapes == UNION {[1..n -> 1..TMaxDim] : n \in 2..TMaxOrder}
 TRankVecs(n) == {r \in [1..n -> 1..TMaxRank] : ProdSeq(r) <= TMaxCore}
@@ -205,6 +206,7 @@ Modes0(s) == 0..(Len(s) - 1)
 BaseCfg == [op |-> "none", kind |-> "cp", shape |-> <<>>, rank |-> <<>>, family |-> "generic", how |-> "function",
             mode |-> 0, operand |-> "none", odim |-> 0, keep |-> FALSE, copy |-> FALSE, npad |-> 0, padb |-> FALSE,
             lens |-> <<>>, maxrank |-> 0, thr |-> 0, listin |-> FALSE, mag |-> 0, omix |-> "none", steps |-> <<>>, grade |-> 0, negmode |-> FALSE, cmix |-> "none"]
+\* call form / aliasing / special zero values: rotated over the configurations in TExpand (see Factorized.tla, Expand)
 HasWideOther(s, m) == \E k \in 1..Len(s) : k # m + 1 /\ s[k] >= 2
 P2Cfgs(R) == {<<js, K>> : js \in {j \in [1..2 -> 1..3] : \A i \in 1..2 : j[i] >= R}, K \in 1..3}
 
@@ -294,12 +296,23 @@ KeepsAll(c) == \A i \in 1..Len(c.lens) : SliceRho(c, i) <= RankLimit(c.shape[2],
 TFactorShapes(c) ==
     IF c.kind = "slices" THEN [i \in 1..Len(c.lens) |-> <<c.lens[i], SliceRho(c, i)>>] ELSE
     FactorShapes([op |-> c.kind, shape |-> c.shape, rank |-> c.rank, bad |-> "none", at |-> 0, dl |-> 0, modes |-> <<>>, tr |-> FALSE])
+IdxIn(x, sq) == CHOOSE k \in 1..Len(sq) : sq[k] = x
+FamilyNames == <<"generic", "pyth", "zerocol", "zeromean", "negw", "zerow", "now", "perm", "orthb", "fullrank", "lowrank", "tie">>
+HowNames    == <<"function", "method", "tuple", "object">>
+Checksum(c) == SumSeq(c.shape) * 7 + SumSeq(c.rank) * 3 + c.mode * 5 + c.odim + c.npad * 2
+               + (IF c.keep THEN 1 ELSE 0) + (IF c.copy THEN 2 ELSE 0) + (IF c.padb THEN 3 ELSE 0)
+               + IdxIn(c.family, FamilyNames) + 4 * IdxIn(c.how, HowNames) + Len(c.shape) + Len(c.steps)
+TPlain(c) == c.kind \in {"cp", "tucker"} /\ c.family = "generic" /\ c.mag = 0 /\ c.omix = "none" /\ c.op # "cp_permute_factors"
 TExpand(c) ==
     c @@ [fshapes |-> TFactorShapes(c),
           coreshape |-> IF c.kind = "tucker" THEN c.rank ELSE <<>>,
           pshapes |-> IF c.kind = "p2" THEN [i \in 1..Len(c.lens) |-> <<c.lens[i], c.rank[1]>>] ELSE <<>>,
           rshapes |-> IF c.kind = "slices" THEN [i \in 1..Len(c.lens) |-> <<SliceRho(c, i), c.shape[2]>>] ELSE <<>>,
           \* pad_tt_rank on cores of DIFFERENT storage types: zero padding must leave every core in its own type
+          \* (Checksum is a multiple of Thin for the thinned families: rotate on the quotient, shifted by other fields)
+          callform |-> <<"plain", "pos", "kw">>[((Checksum(c) \div Thin + SumSeq(c.rank) + c.mode + Len(c.lens)) % 3) + 1],
+          alias |-> TPlain(c) /\ (Checksum(c) \div Thin + SumSeq(c.shape)) % 2 = 0,
+          vals |-> IF TPlain(c) THEN <<"plain", "negzero", "subnormal">>[((Checksum(c) \div Thin + c.mode + SumSeq(c.shape)) % 3) + 1] ELSE "plain",
           cdtypes |-> IF c.cmix = "none" THEN <<>>
                       ELSE [k \in 1..Len(TFactorShapes(c)) |->
                                CASE c.cmix = "f32_first" -> IF k = 1 THEN "float32" ELSE "float64"
@@ -414,12 +427,6 @@ TCfgOK(c) ==
 
 \* Thinning of the big option products (deterministic, spread over every option value): a
 \* configuration is kept iff a checksum of its fields is 0 modulo Thin.  Small families are kept whole.
-IdxIn(x, sq) == CHOOSE k \in 1..Len(sq) : sq[k] = x
-FamilyNames == <<"generic", "pyth", "zerocol", "zeromean", "negw", "zerow", "now", "perm", "orthb", "fullrank">>
-HowNames    == <<"function", "method", "tuple", "object">>
-Checksum(c) == SumSeq(c.shape) * 7 + SumSeq(c.rank) * 3 + c.mode * 5 + c.odim + c.npad * 2
-               + (IF c.keep THEN 1 ELSE 0) + (IF c.copy THEN 2 ELSE 0) + (IF c.padb THEN 3 ELSE 0)
-               + IdxIn(c.family, FamilyNames) + 4 * IdxIn(c.how, HowNames) + Len(c.shape) + Len(c.steps)
 Kept(c) == \/ Thin = 1
            \/ c.op \in {"cp_permute_factors", "svd_roundtrip", "cp_to_parafac2", "svd_compress"} \/ c.kind \in {"p2", "ttm"}
            \/ Checksum(c) % Thin = 0
